@@ -131,10 +131,10 @@ def api_form(program, salt):
                 out = set(vals)
             elif kind == 3:
                 out = frozenset(vals)
-            elif kind in (4, 5) and vals and (all(type(x) is int and -2 ** 63 <= x < 2 ** 63 for x in vals) or all(type(x) is float for x in vals)
-                                              or all(type(x) is str and not x.endswith("\x00") for x in vals)):
-                # (one kind of value only: the inference numpy / pandas make for the array is then the one they make for the list)
-                out = np.array(vals, dtype=object if isinstance(vals[0], str) else None) if kind == 4 else pd.Index(vals)
+            elif kind in (4, 5) and vals and all(type(x) is str and not x.endswith("\x00") for x in vals):
+                # (text only: for numbers pandas' isin compares an int64 / float64 ARRAY with the column through a common dtype -
+                #  float64 against a uint64 column - where it compares a LIST value by value; that is pandas' arithmetic, not the library's)
+                out = np.array(vals, dtype=object) if kind == 4 else pd.Index(vals)
             else:
                 out = tuple(vals)
         except TypeError:
